@@ -348,6 +348,21 @@ def check(ctx):
         for nm in ["HierarchicalReferences", "NonHierarchicalReferences", "HasProperty", "HasModellingRule"]:
             reqs.append([Sym("c12_select"), nm, inst, tn, trefs]); meta.append(("select", (nm, inst, tn, trefs), []))
         reqs.append([Sym("c12_htd"), inst, tn]); meta.append(("htd", (inst, tn, trefs), []))
+        # the selection of the HasSubtype references themselves, through the public id_col argument (tables keyed by another column than "id")
+        if it % 4 == 0 and "HasSubtype" in ids:
+            from opcua_tools import navigation as nav_
+            try:
+                tnodes_, trefs_, _ = frames(tn, trefs)
+                tnodes_["key"] = tnodes_["id"] + 5000
+                rk_ = trefs_.copy()
+                for c_ in ("Src", "Trg", "ReferenceType"): rk_[c_] = rk_[c_] + 5000
+                got_ = sorted([int(a_) - 5000, int(b_) - 5000, int(c_) - 5000] for a_, b_, c_ in zip(*[nav_.has_subtype_references(rk_, tnodes_, "key")[c] for c in ("Src", "Trg", "ReferenceType")]))
+                first_ = [n[0] for n in tn if n[1] == "UAReferenceType" and n[2] == "HasSubtype"][0]
+                want_ = sorted(list(r) for r in trefs if r[2] == first_)
+                ctx.record(["hst-idcol", tn, trefs], True, ["hst-idcol"])
+                if got_ != want_: ctx.fail("C12/select", dict(kind="hst-idcol", args=[tn, trefs]), "has_subtype_references(.., id_col='key') selected %r, the HasSubtype references are %r" % (got_, want_))
+            except BaseException as e_:
+                ctx.fail("C12/select", dict(kind="hst-idcol", args=[tn, trefs]), "has_subtype_references(.., id_col='key') raised %s" % type(e_).__name__)
         # the same table objects, the hierarchy edited in place between two queries (one subtype reference re-parented: same shape, other content)
         hs = [i for i, r in enumerate(trefs) if r[2] == ids.get("HasSubtype", 999)]
         if hs and len(tids) >= 3:
@@ -369,7 +384,8 @@ def check(ctx):
         reqs.append([Sym("c12_circular"), sorted(i for i in ns_of if ns_of[i] == 1), allrefs, tn]); meta.append(("circular", (ns_of, allrefs, tn), []))
     ans = vlib.run_model(reqs, shards=12)
 
-    for (kind, p, feats), a in zip(meta, ans):
+    for jx, ((kind, p, feats), a) in enumerate(zip(meta, ans)):
+        vlib.pandas_mode(jx)
         mo = dec(a)
         out, nontriv, extra, fails = judge(kind, p)
         if out is None: continue
@@ -386,4 +402,17 @@ def check(ctx):
 
 def oracle_case(case):
     """property oracle on a stored case: list of (signature, detail)"""
+    if case.get("kind") == "hst-idcol":
+        from opcua_tools import navigation as nav_
+        tn, trefs = case["args"]
+        try:
+            tnodes_, trefs_, _ = frames(tn, trefs); tnodes_["key"] = tnodes_["id"] + 5000
+            rk_ = trefs_.copy()
+            for c_ in ("Src", "Trg", "ReferenceType"): rk_[c_] = rk_[c_] + 5000
+            got_ = sorted([int(a_) - 5000, int(b_) - 5000, int(c_) - 5000] for a_, b_, c_ in zip(*[nav_.has_subtype_references(rk_, tnodes_, "key")[c] for c in ("Src", "Trg", "ReferenceType")]))
+            first_ = [n[0] for n in tn if n[1] == "UAReferenceType" and n[2] == "HasSubtype"][0]
+            want_ = sorted(list(r) for r in trefs if r[2] == first_)
+            return [] if got_ == want_ else [("C12/select", "has_subtype_references(.., id_col='key') selected %r, expected %r" % (got_, want_))]
+        except BaseException as e_:
+            return [("C12/select", "has_subtype_references(.., id_col='key') raised %s" % type(e_).__name__)]
     return judge(case["kind"], case["args"])[3]
